@@ -872,3 +872,63 @@ Definition check_call (done : list action) (cmd : list (option word)) : sres (li
       | None => SRaised done 8
       end
   end.
+
+(* ---------- vocabulary of the source-translation link of dir_sort_key (harness/src_functions.py C19_DIR_SORT_KEY) ----------
+   Here a path is its NAME: the list of its components, each a string (list of code points).  The directory names the
+   script creates are "iter_<i>" / "plate_<j>" with <i> the decimal numeral of a natural number (f-string of an int).
+     basename       os.path.basename: the last component
+     split_on 95    s.split("_"): the maximal pieces between separators (always at least one piece)
+     snth 1         l[1]: IndexError when there is no second piece
+     int_of_str     int(s) for an ASCII decimal numeral without sign; anything else is why = 7: ValueError - or one of
+                    the numeral forms Python accepts beyond that (sign, surrounding white space, non-ASCII digits), which the
+                    model does not represent *)
+Definition str := list Z.
+Definition fspath := list str.
+Definition basename (p : fspath) : str := last p [].
+Fixpoint split_on (sep : Z) (s : str) : list str :=
+  match s with
+  | [] => [[]]
+  | c :: r =>
+      if c =? sep then [] :: split_on sep r
+      else match split_on sep r with p :: ps => (c :: p) :: ps | [] => [[c]] end
+  end.
+Definition snth {A} (k : nat) (l : list A) : sres A :=
+  match nth_error l k with Some a => SOk a | None => SRaised [] 98 end.
+Fixpoint uint_chars (u : Decimal.uint) : str :=
+  match u with
+  | Decimal.Nil => []
+  | Decimal.D0 r => 48 :: uint_chars r | Decimal.D1 r => 49 :: uint_chars r | Decimal.D2 r => 50 :: uint_chars r
+  | Decimal.D3 r => 51 :: uint_chars r | Decimal.D4 r => 52 :: uint_chars r | Decimal.D5 r => 53 :: uint_chars r
+  | Decimal.D6 r => 54 :: uint_chars r | Decimal.D7 r => 55 :: uint_chars r | Decimal.D8 r => 56 :: uint_chars r
+  | Decimal.D9 r => 57 :: uint_chars r
+  end.
+Fixpoint uint_of_chars (s : str) : option Decimal.uint :=
+  match s with
+  | [] => Some Decimal.Nil
+  | c :: r =>
+      match uint_of_chars r with
+      | None => None
+      | Some u =>
+          if c =? 48 then Some (Decimal.D0 u) else if c =? 49 then Some (Decimal.D1 u) else if c =? 50 then Some (Decimal.D2 u)
+          else if c =? 51 then Some (Decimal.D3 u) else if c =? 52 then Some (Decimal.D4 u) else if c =? 53 then Some (Decimal.D5 u)
+          else if c =? 54 then Some (Decimal.D6 u) else if c =? 55 then Some (Decimal.D7 u) else if c =? 56 then Some (Decimal.D8 u)
+          else if c =? 57 then Some (Decimal.D9 u) else None
+      end
+  end.
+Definition int_of_str (s : str) : sres Z :=
+  match s with
+  | [] => SRaised [] 7
+  | _ => match uint_of_chars s with Some u => SOk (Z.of_nat (Nat.of_uint u)) | None => SRaised [] 7 end
+  end.
+(* f"<prefix>_{i}" for an int i >= 0 *)
+Definition numbered (prefix : str) (i : nat) : str := prefix ++ 95 :: uint_chars (Nat.to_uint i).
+Section DirNames.
+Import Coq.Strings.String.
+Definition S_iter : str := Eval compute in lit "iter".
+Definition S_plate : str := Eval compute in lit "plate".
+End DirNames.
+(* the NAME of a globbed iteration / plate directory of the tree under an output directory named [out]: the path whose model
+   value (examine's configuration) is iter_path d / plate_path p *)
+Definition iter_pathname (out : fspath) (d : iter_path) : fspath := out ++ [numbered S_iter (Z.to_nat (fst d))].
+Definition plate_pathname (out : fspath) (p : plate_path) : fspath :=
+  out ++ [numbered S_iter (Z.to_nat (fst (fst p))); numbered S_plate (Z.to_nat (snd (fst p)))].
